@@ -14,10 +14,6 @@ pub uninterp spec fn spec_pk_bytes(k: PoolKey) -> Seq<u8>;
 pub uninterp spec fn spec_liq_denom(k: PoolKey) -> Denom;
 pub broadcast axiom fn axiom_liq_denom(k: PoolKey) ensures (#[trigger] spec_liq_denom(k)) is Custom;
 impl PoolKey {
-    /// panics when both denominations are the same
-    #[verifier::external_body] pub fn new(x: Denom, y: Denom) -> (r: PoolKey) requires x != y ensures r == pk_new(x, y), pk_canonical(r) { unimplemented!() }
-    pub fn left(&self) -> (r: Denom) ensures r == self.left { self.left }
-    pub fn right(&self) -> (r: Denom) ensures r == self.right { self.right }
     #[verifier::external_body] pub fn to_bytes(self) -> (r: Bytes) ensures r@ == spec_pk_bytes(self) { unimplemented!() }
     #[verifier::external_body] pub fn from_bytes(vec: &[u8]) -> (r: Option<PoolKey>) ensures r == spec_pk_from_bytes(vec@) { unimplemented!() }
     #[verifier::external_body] pub fn liq_token_denom(&self) -> (r: Denom) ensures r == spec_liq_denom(*self) { unimplemented!() }
